@@ -43,6 +43,7 @@ type Contract struct {
 	NoBody    bool
 	SafeUnder *SX // automatic safety obligations are claimed only under this condition
 	Uses      []string
+	BoxPtr    []string // pointer parameters that always point to heap-allocated cells (never into objects)
 	Waive     [][2]string // obligation-name suffix, reason: assumed instead of checked (listed)
 	AfterCall []*Clause // must hold right after every abstract (external) call: crash points
 }
@@ -278,6 +279,8 @@ func (cs *ContractSet) handle(cur **Contract, txt, src string) error {
 	case "modifies":
 		c.ModSet = true
 		c.Modifies = append(c.Modifies, strings.Fields(rest)...)
+	case "boxptr":
+		c.BoxPtr = append(c.BoxPtr, strings.Fields(rest)...)
 	case "waive":
 		pat, reason := splitHead(rest)
 		c.Waive = append(c.Waive, [2]string{pat, reason})
